@@ -225,7 +225,7 @@ def tree_dump(m):
     return [(p, type(x).__name__, id(x) if isinstance(x, M.RawTokenModel) else None) for p, x in docenv.walk(m)]
 
 
-def make_rep(scaf_name, n, op, facet, step=None, attached=False, twin=False):
+def make_rep(scaf_name, n, op, facet, step=None, attached=False, twin=False, pre=None):
     sc = SCAFFOLDS[scaf_name]
     off = FILE_OFFSET.get(scaf_name, 0)
     n_tot = n + 2 * off
@@ -234,8 +234,9 @@ def make_rep(scaf_name, n, op, facet, step=None, attached=False, twin=False):
     fixed_k = NEEDS_DONORS.get(op)
     max_k = fixed_k if fixed_k is not None else (3 if op in ('setslice', 'extend', 'setslice_ext') else 0)
 
-    def cell(i: int, j: int, k: int, d0: int, d1: int, d2: int, bad: int) -> None:
+    def cell(i: int, j: int, k: int, d0: int, d1: int, d2: int, bad: int, pi: int = 0, pd: int = 0) -> None:
         assert -n_tot - 3 <= i <= n_tot + 3 and -n_tot - 3 <= j <= n_tot + 3
+        assert (-n_tot - 3 <= pi <= n_tot + 3 and 0 <= pd < nd) if pre is not None else (pi == 0 and pd == 0)
         assert (k == fixed_k) if fixed_k is not None else (0 <= k <= max_k)
         assert 0 <= d0 < nd and 0 <= d1 < nd and 0 <= d2 < nd
         assert (0 <= bad < max(k, 1)) if attached else bad == -1
@@ -246,9 +247,20 @@ def make_rep(scaf_name, n, op, facet, step=None, attached=False, twin=False):
             views = [(name, getattr(parent, name), pred, conv) for name, pred, conv in sc.views]
             for _, v, _, _ in views:
                 list(v)             # every view is materialised before the mutation
-            ref = list(raw)
             store = f.token_store
             other = f.raw_directives[-1]      # a node attached elsewhere (for refusal cells)
+        if pre is not None:   # a preceding operation through the same raw list (history of length 2)
+            pi = pick(pi, -n_tot - 3, n_tot + 3)
+            pd = pick(pd, 0, nd - 1)
+            with NoTracing():
+                try:
+                    apply_real(pre, raw, pi, pi + 2 if pre == 'delslice' else (pi if pre == 'setslice' else None),
+                               [sc.donors[pd]()] + ([sc.donors[1 - pd]()] if pre == 'setslice' else []), None)
+                except REFUSALS:
+                    return
+                docenv.tree_invariant(f, what='tree after the first operation (%s at %s)' % (pre, pi))
+        with NoTracing():
+            ref = list(raw)
         k = pick(k, 0, max(max_k, 1))
         kinds = [pick(d, 0, nd - 1) for d in (d0, d1, d2)[:k]]   # only the donors that exist are case-split
         bad_ = pick(bad, 0, max(k, 1) - 1) if attached else -1
@@ -363,8 +375,8 @@ def make_rep(scaf_name, n, op, facet, step=None, attached=False, twin=False):
             else:
                 raise AssertionError(facet)
 
-    name = 'rep_%s_%s%d_%s%s%s%s' % (facet, scaf_name, n, op, ('_s%s' % step).replace('-', 'm') if step is not None else '',
-                                      ('_attached_' + attached) if attached else '', '_twin' if twin else '')
+    name = 'rep_%s_%s%d_%s%s%s%s%s' % (facet, scaf_name, n, op, ('_s%s' % step).replace('-', 'm') if step is not None else '',
+                                        ('_attached_' + attached) if attached else '', ('_after_' + pre) if pre else '', '_twin' if twin else '')
     return name, cell
 
 
@@ -424,6 +436,16 @@ for _scaf in SCAFFOLDS:
                 _reg(make_rep(_scaf, _n, _op, 'refuse', attached=_kind), {'C19': Q if quick else T, 'C05': Q if (quick and _kind != 'mid' and _op != 'extend') else T},
                      900, 'rep/refuse-attached',
                      _bounds(_scaf, _n, _op) + '; one donor (symbolic position in the batch) is a node attached elsewhere (%s)' % _kind, cost=300)
+# histories of length 2 through the raw list
+for _facet, _prop in FACET_PROP.items():
+    if _facet == 'refuse':
+        continue
+    for _scaf in SCAFFOLDS:
+        for _pre in ('insert', 'pop', 'setslice', 'delslice', 'extend'):
+            for _op in ('insert', 'pop', 'setitem', 'delitem', 'append', 'extend', 'clear'):
+                quick = _scaf in QUICK_SCAF[_facet][:2] and (_pre, _op) in (('insert', 'pop'), ('pop', 'insert'), ('setslice', 'setitem'), ('extend', 'delitem'))
+                _reg(make_rep(_scaf, 2, _op, _facet, pre=_pre), {_prop: Q if quick else T}, 900, 'rep2/' + _facet,
+                     '%s with 2 items: raw %s at a symbolic index, then %s' % (_scaf, _pre, _bounds(_scaf, 2, _op)), cost=600)
 for _facet, _prop in FACET_PROP.items():
     _reg(make_rep('note_tags', 2, 'setslice', _facet, twin=True), {_prop: Q}, 120, 'rep/' + _facet, 'vacuity twin', twin=True, cost=1)
 
